@@ -8,7 +8,7 @@
 #define LOGIN "bs-user"
 #define KEY   "bs-key"
 
-static long n_requests;
+static long n_requests, n_level_refusals;
 static void handler(const unsigned char *req, size_t n, vbuf *resp, void *user) {
 	rp_req r;
 	rp_env e;
@@ -22,7 +22,16 @@ static void handler(const unsigned char *req, size_t n, vbuf *resp, void *user) 
 	e.version = r.version; e.kind = RP_AGGR; e.login = LOGIN; e.mac_alg = RH_SHA256; e.key = KEY; e.keylen = strlen(KEY);
 	level = r.has_level ? r.level : 0;
 	vb_init(&body); vb_init(&payload);
-	rp_aggregate(&sig, r.hash, r.hash_len, level, 3, 3, 1700000000ULL, 1700000000ULL + 86400 * 3);
+	if (level + 1 > 255) {
+		/* a root at level 255 leaves no room for the aggregator's own link: refused with "request too large" */
+		n_level_refusals++;
+		rp_aggr_resp_payload(&payload, r.version, r.req_id, 1, 0x0104, "request too large", NULL, 0);
+		rp_wrap_response(resp, &e, payload.p, payload.n);
+		vb_free(&body); vb_free(&payload);
+		rp_req_free(&r);
+		return;
+	}
+	rp_aggregate(&sig, r.hash, r.hash_len, level, level >= 240 ? 0 : 3, 3, 1700000000ULL, 1700000000ULL + 86400 * 3);
 	sig.ch[0].links[0].level_corr -= level;     /* reported relative to the client's root, see c07_sign.c */
 	rp_sig_body(&sig, &body);
 	rp_aggr_resp_payload(&payload, r.version, r.req_id, 1, 0, NULL, body.p, body.n);
@@ -149,6 +158,47 @@ static KSI_BlockSigner *new_signer(KSI_CTX *ctx, int masking) {
 	return bs;
 }
 
+/* leaves near the top of the level range: two level-0 leaves, then one of level L (with / without metadata). The high leaf is either
+ * refused with an error or accepted; in both cases the block still closes and every ACCEPTED leaf gets a signature that verifies */
+static void high_leaf_case(int masking, int meta, int L) {
+	KSI_CTX *ctx = new_ctx();
+	KSI_BlockSigner *bs = new_signer(ctx, masking);
+	KSI_BlockSignerHandle *hd[3] = {NULL, NULL, NULL};
+	int lv[3], acc[3] = {0, 0, 0}, i, res;
+	long refusals0 = n_level_refusals;
+	char what[64];
+	lv[0] = 0; lv[1] = 0; lv[2] = L;
+	snprintf(what, sizeof what, "mask%d meta%d leaves 0,0,%d", masking, meta, L);
+	for (i = 0; i < 3; i++) {
+		KSI_DataHash *h = leaf_hash(ctx, 300u + (unsigned)i);
+		KSI_MetaData *m = (meta == 1 || (meta == 2 && i == 2)) ? leaf_meta(ctx, 300u + (unsigned)i) : NULL;
+		res = KSI_BlockSigner_addLeaf(bs, h, lv[i], m, &hd[i]);
+		vf_count("impl_calls", 1);
+		acc[i] = res == KSI_OK;
+		if (i < 2 && res != KSI_OK) vf_fail("leaf-refused", "%s: level-0 leaf %d refused 0x%x", what, i, res);
+		if (i == 2) vf_outcome("high-leaf:%s", res == KSI_OK ? "accepted" : "refused");
+		KSI_DataHash_free(h); KSI_MetaData_free(m);
+	}
+	res = KSI_BlockSigner_closeAndSign(bs);
+	vf_count("impl_calls", 1);
+	if (res != KSI_OK && n_level_refusals > refusals0) vf_outcome("high-leaf:root-at-level-255-not-signable");   /* the aggregator had no room above the root: a legitimate refusal */
+	else if (res != KSI_OK) vf_fail("close-after-high-leaf", "%s: the leaf of level %d was %s, and closing the block then fails with 0x%x: the leaves accepted before have lost their proofs", what, L, acc[2] ? "accepted" : "refused", res);
+	else for (i = 0; i < 3; i++) if (acc[i] && hd[i] != NULL) {
+		KSI_Signature *sig = NULL;
+		KSI_DataHash *h = leaf_hash(ctx, 300u + (unsigned)i);
+		res = KSI_BlockSignerHandle_getSignature(hd[i], &sig);
+		vf_count("impl_calls", 1);
+		if (res != KSI_OK || sig == NULL) vf_fail("no-leaf-signature", "%s: no signature for accepted leaf %d: 0x%x", what, i, res);
+		else if ((res = KSI_Signature_verifyWithPolicy(sig, h, (KSI_uint64_t)lv[i], KSI_VERIFICATION_POLICY_INTERNAL, NULL)) != KSI_OK) vf_fail("leaf-signature-invalid", "%s: signature of leaf %d does not verify for its hash and level: 0x%x", what, i, res);
+		else vf_outcome("leaf:verified");
+		KSI_Signature_free(sig); KSI_DataHash_free(h);
+	}
+	for (i = 0; i < 3; i++) KSI_BlockSignerHandle_free(hd[i]);
+	KSI_BlockSigner_free(bs);
+	KSI_CTX_free(ctx);
+	if (vf_alloc_live != 0) { vf_fail("leak", "%ld SDK allocations live after the block", vf_alloc_live); vf_alloc_live = 0; }
+}
+
 static void run(void) {
 	int n, masking, meta, level, n1;
 	int maxn = VF_THOROUGH ? 9 : 6;
@@ -167,6 +217,15 @@ static void run(void) {
 		if (vf_alloc_live != 0) { vf_fail("leak", "%ld SDK allocations live after the block", vf_alloc_live); vf_alloc_live = 0; }
 		if (n == 3 && masking && meta == 1 && level == 0) vf_sample("block signer, blinding masks, metadata on every leaf, 3 leaves: 3 signatures verified (library + reference)");
 		vf_case_end(1);
+	}
+	{
+		static const int HL[] = {200, 250, 251, 252, 253, 254, 255};
+		int hi;
+		for (masking = 0; masking < 2; masking++) for (meta = 0; meta < 3; meta++) for (hi = 0; hi < 7; hi++) {
+			if (!vf_case_begin("bs-high:mask%d:meta%d:lvl%d", masking, meta, HL[hi])) continue;
+			high_leaf_case(masking, meta, HL[hi]);
+			vf_case_end(1);
+		}
 	}
 	/* reset == new: the second block signed by a reset signer is byte-identical to the same block signed by a new signer */
 	for (masking = 0; masking < 2; masking++) for (meta = 0; meta < 3; meta++) for (n1 = 0; n1 <= 3; n1++) for (n = 1; n <= (VF_THOROUGH ? 5 : 3); n++) {
